@@ -93,10 +93,14 @@ SOURCES = [
     '<dtml-try><dtml-var sub><dtml-var boom><dtml-except HA>E<dtml-var d>'
     '</dtml-try><dtml-in seq reverse_expr="a" prefix=p>'
     '<dtml-var p_index></dtml-in>',
+    # line ends as a DOS editor / a browser form leaves them
+    '<dtml-if a>\r\nyes\r\r\n<dtml-else>\r\nno\r</dtml-if>\r\n&dtml-d;\r'
+    '<dtml-in seq>\r\n<dtml-var k>\r\n</dtml-in>\n\r',
     '',                       # re-edited to the empty text
 ]
 DEFAULTS = [{'d': 'd0'}, {'d': 'd1', 'a': 0, 'sk': 'j'}, {}]
-OPS = ['R0', 'R1', 'R2', 'P', 'D', 'C', 'M0', 'M1', 'M2', 'M3', 'M4', 'G0',
+OPS = ['R0', 'R1', 'R2', 'P', 'D', 'C', 'M0', 'M1', 'M2', 'M3', 'M4', 'M5',
+       'G0',
        'G1', 'G2']
 
 
